@@ -210,7 +210,7 @@ func (t *Trie) PrefixSearch(key string) []string {
 		ret = append(ret, key)
 	}
 	for _, ch := range node.children {
-		stack = append(stack, trieFrame{ch.val, 0, ch.node})
+		stack = append(stack, trieFrame{ch.val, int32(buf.Len()), ch.node})
 	}
 
 	for len(stack) > 0 {
@@ -218,23 +218,15 @@ func (t *Trie) PrefixSearch(key string) []string {
 		cur := stack[last]
 		stack = stack[:last]
 
+		// depth is the byte length of the parent's prefix
+		buf.Truncate(int(cur.depth))
 		writeRune(&buf, cur.r)
 		if cur.node.isEnd {
 			ret = append(ret, buf.String())
 		}
 
-		if len(cur.node.children) == 0 {
-			if len(stack) == 0 {
-				break
-			}
-
-			back := int(cur.depth + 1 - stack[last-1].depth)
-			buf.Truncate(buf.Len() - back)
-			continue
-		}
-
 		for _, child := range cur.node.children {
-			stack = append(stack, trieFrame{child.val, cur.depth + 1, child.node})
+			stack = append(stack, trieFrame{child.val, int32(buf.Len()), child.node})
 		}
 	}
 
@@ -283,7 +275,7 @@ func (t *Trie) FuzzySearch(key string) []string {
 			ret = append(ret, key[len(key)-node.size:])
 		}
 		for _, ch := range node.children {
-			stack = append(stack, trieFrame{ch.val, 0, ch.node})
+			stack = append(stack, trieFrame{ch.val, int32(buf.Len()), ch.node})
 		}
 
 		for len(stack) > 0 {
@@ -291,23 +283,15 @@ func (t *Trie) FuzzySearch(key string) []string {
 			cur := stack[last]
 			stack = stack[:last]
 
+			// depth is the byte length of the parent's prefix
+			buf.Truncate(int(cur.depth))
 			writeRune(&buf, cur.r)
 			if cur.node.isEnd {
 				ret = append(ret, buf.String())
 			}
 
-			if len(cur.node.children) == 0 {
-				if len(stack) == 0 {
-					break
-				}
-
-				back := int(cur.depth + 1 - stack[last-1].depth)
-				buf.Truncate(buf.Len() - back)
-				continue
-			}
-
 			for _, child := range cur.node.children {
-				stack = append(stack, trieFrame{child.val, cur.depth + 1, child.node})
+				stack = append(stack, trieFrame{child.val, int32(buf.Len()), child.node})
 			}
 		}
 
